@@ -14,7 +14,7 @@ use vharness::util::{env_u64, Rng, Trace};
 use vharness::wirecodec::{pay, Abi, Vals};
 use vharness::xport::{run_fusedev, run_virtio, Outcome, SeqPair};
 
-fn boundary(rng: &mut Rng, w: usize) -> u64 {
+pub fn boundary(rng: &mut Rng, w: usize) -> u64 {
     let max = if w >= 8 { u64::MAX } else { (1u64 << (8 * w)) - 1 };
     match rng.below(10) {
         0 => 0,
@@ -27,7 +27,7 @@ fn boundary(rng: &mut Rng, w: usize) -> u64 {
     }
 }
 
-fn rname(rng: &mut Rng, maxlen: usize) -> Vec<u8> {
+pub fn rname(rng: &mut Rng, maxlen: usize) -> Vec<u8> {
     const AL: &[u8] = b"abcdefghijklmnopqrstuvwxyzABCDEFGHIJKLMNOPQRSTUVWXYZ0123456789._-+=,@";
     let len = match rng.below(8) {
         0 => 1,
@@ -44,7 +44,7 @@ fn rname(rng: &mut Rng, maxlen: usize) -> Vec<u8> {
     (0..len).map(|_| *rng.pick(AL)).collect()
 }
 
-fn rstat(rng: &mut Rng) -> libc::stat64 {
+pub fn rstat(rng: &mut Rng) -> libc::stat64 {
     // values the wire format can carry: 64-bit fields full range, 32-bit wire fields below 2^32
     let mut st: libc::stat64 = unsafe { std::mem::zeroed() };
     st.st_ino = boundary(rng, 8);
@@ -65,11 +65,11 @@ fn rstat(rng: &mut Rng) -> libc::stat64 {
     st
 }
 
-fn rdur(rng: &mut Rng) -> Duration {
+pub fn rdur(rng: &mut Rng) -> Duration {
     Duration::new(boundary(rng, 8), rng.below(1_000_000_000) as u32)
 }
 
-fn rentry(rng: &mut Rng) -> Entry {
+pub fn rentry(rng: &mut Rng) -> Entry {
     Entry {
         inode: boundary(rng, 8).max(1),
         generation: boundary(rng, 8),
@@ -80,7 +80,7 @@ fn rentry(rng: &mut Rng) -> Entry {
     }
 }
 
-fn rerr(rng: &mut Rng) -> Ret {
+pub fn rerr(rng: &mut Rng) -> Ret {
     use std::io::ErrorKind::*;
     if rng.chance(2, 3) {
         Ret::Err { os: rng.range(1, 133) as i32, kind: None }
@@ -90,15 +90,15 @@ fn rerr(rng: &mut Rng) -> Ret {
     }
 }
 
-struct Built {
-    bytes: Vec<u8>,
-    req: Value,
-    script: Ret,
+pub struct Built {
+    pub bytes: Vec<u8>,
+    pub req: Value,
+    pub script: Ret,
     /// reply capacity needed beyond the fixed part
-    cap_hint: usize,
+    pub cap_hint: usize,
 }
 
-fn build(abi: &Abi, rng: &mut Rng, opname: &str, bits_on: &[String], want_err: bool) -> Built {
+pub fn build(abi: &Abi, rng: &mut Rng, opname: &str, bits_on: &[String], want_err: bool) -> Built {
     let op = abi.op(opname).clone();
     let body = op["body"].as_str().unwrap().to_string();
     let tail = op["tail"].as_str().unwrap().to_string();
@@ -311,17 +311,17 @@ fn build(abi: &Abi, rng: &mut Rng, opname: &str, bits_on: &[String], want_err: b
     Built { bytes, req, script, cap_hint }
 }
 
-fn u32le(b: &[u8], o: usize) -> u32 {
+pub fn u32le(b: &[u8], o: usize) -> u32 {
     u32::from_le_bytes([b[o], b[o + 1], b[o + 2], b[o + 3]])
 }
-fn u64le(b: &[u8], o: usize) -> u64 {
+pub fn u64le(b: &[u8], o: usize) -> u64 {
     let mut a = [0u8; 8];
     a.copy_from_slice(&b[o..o + 8]);
     u64::from_le_bytes(a)
 }
 
 /// Decode a reply message by the kernel layouts. `kind` = result kind the filesystem returned.
-fn decode_reply(abi: &Abi, msg: &[u8], kind: &str, plus: bool) -> Value {
+pub fn decode_reply(abi: &Abi, msg: &[u8], kind: &str, plus: bool) -> Value {
     if msg.len() < 16 {
         return json!({"present": true, "short": true, "msglen": msg.len(), "len": 0, "error": 0, "unique": "0", "body": {}, "bodylen": 0,
                       "pay": pay(&[]), "dirents": [], "parse_ok": false});
@@ -392,12 +392,12 @@ fn decode_reply(abi: &Abi, msg: &[u8], kind: &str, plus: bool) -> Value {
            "body": body, "bodylen": msg.len() - 16, "pay": pay(payload), "dirents": dirents, "parse_ok": parse_ok})
 }
 
-fn no_reply() -> Value {
+pub fn no_reply() -> Value {
     json!({"present": false, "short": false, "msglen": 0, "len": 0, "error": 0, "unique": "0", "body": {}, "bodylen": 0, "pay": pay(&[]),
            "dirents": [], "parse_ok": true})
 }
 
-fn split_lens(rng: &mut Rng, total: usize, pad: usize) -> Vec<usize> {
+pub fn split_lens(rng: &mut Rng, total: usize, pad: usize) -> Vec<usize> {
     // random segmentation of total(+pad) bytes: 1 segment, split inside the header, many small, ...
     let t = total + pad;
     match rng.below(5) {
@@ -563,14 +563,14 @@ fn run_wf(args: &[String]) {
 // ------------------------------------------------------------------------------------------------
 // class mode: every request class exported by TLC from spec/WireFrame.tla, concretised k times
 
-struct ClassReq {
-    bytes: Vec<u8>,
-    cap: usize,
-    script: Ret,
-    unique: u64,
+pub struct ClassReq {
+    pub bytes: Vec<u8>,
+    pub cap: usize,
+    pub script: Ret,
+    pub unique: u64,
 }
 
-fn success_ret(rng: &mut Rng, abi: &Abi, op: &str, size_hint: usize) -> (Ret, usize) {
+pub fn success_ret(rng: &mut Rng, abi: &Abi, op: &str, size_hint: usize) -> (Ret, usize) {
     // a success result for `op` and the number of body bytes its reply carries
     let sz = |s: &str| abi.size(s);
     match op {
@@ -618,7 +618,7 @@ fn success_ret(rng: &mut Rng, abi: &Abi, op: &str, size_hint: usize) -> (Ret, us
     }
 }
 
-fn concretise(abi: &Abi, rng: &mut Rng, c: &Value) -> Option<ClassReq> {
+pub fn concretise(abi: &Abi, rng: &mut Rng, c: &Value) -> Option<ClassReq> {
     const MAXB: u64 = (1 << 20) + 4096;
     let op = c["op"].as_str().unwrap();
     let (sup, lenf, body, capc, fsres) = (c["sup"].as_str().unwrap(), c["lenf"].as_str().unwrap(), c["body"].as_str().unwrap(), c["cap"].as_str().unwrap(), c["fsres"].as_str().unwrap());
@@ -711,7 +711,7 @@ fn concretise(abi: &Abi, rng: &mut Rng, c: &Value) -> Option<ClassReq> {
             let mut v = vec![0u8; n];
             rng.fill(&mut v);
             tail.extend(&v);
-            vals.insert("size".into(), n as u64);
+            vals.insert("size".into(), if body == "size_gt_max" { rng.range((1 << 20) + 1, u32::MAX as u64) } else { n as u64 });
         }
         "ioctl" => {
             let n = rng.range(0, 64) as usize;
@@ -814,7 +814,7 @@ fn concretise(abi: &Abi, rng: &mut Rng, c: &Value) -> Option<ClassReq> {
     Some(ClassReq { bytes, cap, script, unique })
 }
 
-fn abi_shape(op: &str) -> &'static str {
+pub fn abi_shape(op: &str) -> &'static str {
     match op {
         "LOOKUP" | "UNLINK" | "RMDIR" | "REMOVEXATTR" => "name1",
         "MKNOD" | "MKDIR" | "LINK" | "CREATE" | "GETXATTR" => "st_name1",
@@ -832,7 +832,7 @@ fn abi_shape(op: &str) -> &'static str {
     }
 }
 
-fn hdr_json(bytes: &[u8], unique: u64) -> Value {
+pub fn hdr_json(bytes: &[u8], unique: u64) -> Value {
     let g32 = |o: usize| if bytes.len() >= o + 4 { u32le(bytes, o) as u64 } else { 0 };
     json!({"h": {"len": g32(0).to_string(), "opcode": g32(4).to_string(), "unique": unique.to_string(), "nodeid": "0", "uid": "0", "gid": "0", "pid": "0"},
            "f": {}, "bits": {}, "num": {}, "names": [], "pay": pay(&[]), "list": [], "nbytes": bytes.len()})
@@ -981,7 +981,8 @@ fn run_random(args: &[String]) {
     tr.flush();
 }
 
-fn main() {
+#[allow(dead_code)]
+pub fn main() {
     let args: Vec<String> = std::env::args().collect();
     match args.get(3).map(|s| s.as_str()) {
         Some("classes") => run_classes(&args),
